@@ -5,6 +5,7 @@ package main
 import (
 	"bytes"
 	"encoding/binary"
+	"net"
 	"strings"
 
 	"github.com/miekg/dns"
@@ -65,8 +66,10 @@ func scripted(w middleware.Transport, raw []byte, entry string) bool {
 	switch kind {
 	case kNone:
 		return true
-	case kWrite, kWrite9:
+	case kWrite:
 		_, _ = w.Write(progReply(raw, ec))
+	case kWrite9:
+		_ = w.WriteMsg(progMsgC(raw))
 	case kLease:
 		reply := progReply(raw, ec)
 		var buf []byte
@@ -102,6 +105,26 @@ func scripted(w middleware.Transport, raw []byte, entry string) bool {
 		_ = w.WriteMsg(progMsg(raw))
 	}
 	return true
+}
+
+// progMsgC is the COMPRESSIBLE Msg-path reply (kind 9): raw[13] A records under
+// one 50-octet owner label, Compress set — 12+66k bytes uncompressed (what
+// PackBuffer sizes its buffer by), 12+66+16(k-1) packed.
+func progMsgC(raw []byte) *dns.Msg {
+	m := new(dns.Msg)
+	m.Id = binary.BigEndian.Uint16(raw[0:2])
+	m.Response = true
+	m.Compress = true
+	fill := byte(0)
+	if len(raw) > 14 {
+		fill = raw[14]
+	}
+	owner := strings.Repeat("q", 50) + "."
+	for i := 0; i < int(raw[13]); i++ {
+		m.Answer = append(m.Answer, &dns.A{Hdr: dns.RR_Header{Name: owner, Rrtype: dns.TypeA, Class: dns.ClassINET, Ttl: 60},
+			A: net.IPv4(10, byte(i), fill, 7)})
+	}
+	return m
 }
 
 // progMsg is the message the WriteMsg kind hands to the transport: raw[13]
@@ -146,6 +169,9 @@ func ownReply(sent, got []byte) bool {
 		return false
 	case kWriteMsg:
 		want, err := progMsg(sent).Pack()
+		return err == nil && bytes.Equal(got, want)
+	case kWrite9:
+		want, err := progMsgC(sent).Pack()
 		return err == nil && bytes.Equal(got, want)
 	}
 	want := progReply(sent, 0)
